@@ -35,6 +35,9 @@ CHECKS = {
  "C17": dict(cat="exploration", technique="deterministic simulation: the real ring code over ring memory owned by a simulated kernel actor (ring stub), seeded interleaving of application calls and kernel steps, ownership-map oracle",
    text="The unmodified setup_io_uring builds an IoUring over memory owned by a ring stub that plays the kernel (io_uring_setup, the three mmaps, consumption, posting). Seeded runs interleave application calls (get slot+stamp, flush, reap, re-read a returned completion) with kernel steps (consume k, post k incl. unsolicited completions) at call granularity, for SQ sizes 1-8, CQ 2-32, both mmap layouts, SQE128/CQE32, and head/tail counters starting at 0, mid-range and u32::MAX-k so that indices wrap. Oracle: per-slot ownership, exactly-once in-order consumption and reaping with the posted content, eventual return of posted completions, no panic (half of the workers with overflow checks on). Sampling, not proof.",
    note="Uses hook IoUring::verif_set_sq_position (cfg(tiny_std_verif)) to start the private SQ position at the preset counter; the kernel actor follows the documented ring protocol.", ref="DESIGN.md §3 C17"),
+ "C18": dict(cat="exploration", technique="deterministic simulation at the system-call seam around the real kernel ring: seeded operation batches with direct-call twins, setup/teardown mapping and descriptor ledger with setup-fault injection (ring stub for the single-mmap layout)",
+   text="Even cases drive one real io_uring (1-64 entries) with seeded batches of mutually independent entries (mkdirat, openat, writev, readv, statx, renameat, unlinkat, close, timeout, socket, incl. failing ones); completions are matched by user_data, each result is compared with the equivalent direct system call executed in a twin directory and the directories are compared; exactly one completion per submission. Odd cases run setup+drop under a mapping/descriptor ledger at the seam, on the real kernel and on the ring stub (single-mmap and two-mapping layouts), with io_uring_setup or any of the mmaps failing by decision: every ring mapping unmapped exactly once, nothing else unmapped, descriptor closed once, nothing left after a failed setup. Sampling, not proof.",
+   note="Weaker control than the other checks: the kernel's completion order and worker threads are not decided by the simulator (normalised by user_data, independent entries only); fixed buffers, connect/accept, send/recvmsg, poll and linked chains are not generated.", ref="DESIGN.md §3 C18"),
 }
 NA = {
  "C07": "pure function of the initial process image (argv/env/aux on the start-up stack): no schedule, clock, fault or second party to simulate",
